@@ -611,11 +611,12 @@ def _rtf_regex_globals(m):
     return sorted(n for n in names if isinstance(getattr(m, n, None), re.Pattern))
 
 
-def _combine_surrogates_model(text):
-    """rtf_extractor._combine_surrogates on symbolic strings (the real one goes through the UTF-16
-    codec): a high surrogate directly followed by a low one is the code point they encode, every
-    other code in D800..DFFF becomes U+FFFD; each test on a symbolic code is a solver fork.
-    Compared with the real function on a lattice of concrete strings (_combine_selftest)."""
+def _utf16_round_trip_model(text):
+    """``text.encode("utf-16", "surrogatepass").decode("utf-16", "replace")`` of the STANDARD LIBRARY codec on
+    symbolic strings: a high surrogate directly followed by a low one is the code point they encode,
+    every other code in D800..DFFF becomes U+FFFD; each test on a symbolic code is a solver fork.
+    Compared with the codec itself on a lattice of concrete strings (_utf16_model_selftest) - never
+    with the function under test."""
     cs = _codes(text)
 
     def between(c, lo, hi):
@@ -639,18 +640,75 @@ def _combine_surrogates_model(text):
     return S.CharStr(out)
 
 
-def _combine_selftest(real):
+_SURR_LATTICE = ["a", "\ud800", "\udbff", "\udc00", "\udfff", "\ufeff", "\ufffe", "\U0001f600", "\ud83d", "\ude00"]
+
+
+def _surr_lattice(top=4):
     import itertools
-    alphabet = ["a", "\ud800", "\udbff", "\udc00", "\udfff", "\ufeff", "\ufffe", "\U0001f600", "\ud83d", "\ude00"]
+    for k in range(0, top + 1):
+        for t in itertools.product(_SURR_LATTICE, repeat=k):
+            yield "".join(t)
+
+
+def _utf16_model_selftest():
+    """the codec model against python's own codec (independent of the repository)"""
     n = 0
-    for k in range(0, 5):
-        for t in itertools.product(alphabet, repeat=k):
-            sub = "".join(t)
-            a = real(sub)
-            b = "".join(chr(c) for c in _combine_surrogates_model(sub).c)
-            if a != b:
-                raise AssertionError(f"model of _combine_surrogates differs on {sub!r}: {a!r} vs {b!r}")
-            n += 1
+    for sub in _surr_lattice():
+        a = sub.encode("utf-16", "surrogatepass").decode("utf-16", "replace")
+        b = "".join(chr(c) for c in _utf16_round_trip_model(sub).c)
+        if a != b:
+            raise AssertionError(f"model of the utf-16 surrogatepass/replace round trip differs on {sub!r}: {a!r} vs {b!r}")
+        n += 1
+    return n
+
+
+class _Utf16Units:
+    """what ``<symbolic str>.encode("utf-16", "surrogatepass")`` returns in lifted code: only
+    ``.decode("utf-16", "replace")`` is modelled (the round trip as a whole)"""
+
+    def __init__(self, text):
+        self.text = text
+
+    def decode(self, encoding="utf-8", errors="strict"):
+        encoding, errors = _plain(encoding), _plain(errors)
+        if encoding.lower().replace("_", "-") != "utf-16" or errors != "replace":
+            raise S.Unsupported(f"decode({encoding!r}, {errors!r}) of modelled UTF-16 code units")
+        return _utf16_round_trip_model(self.text)
+
+
+class _RtfText(S.CharStr):
+    """the argument handed to the lifted _combine_surrogates: a CharStr whose encode() accepts the codec
+    names of lifted code (string literals arrive as CharStr constants); concrete text goes through the
+    real codec, symbolic text through the round-trip model"""
+    __slots__ = ()
+
+    def encode(self, encoding="utf-8", errors="strict"):
+        encoding, errors = _plain(encoding), _plain(errors)
+        s_ = self.concrete()
+        if s_ is not None:
+            return _PlainBytes(s_.encode(encoding, errors))
+        if encoding.lower().replace("_", "-") == "utf-16" and errors == "surrogatepass":
+            return _Utf16Units(self)
+        raise S.Unsupported(f"encode({encoding!r}, {errors!r}) of a string with symbolic characters")
+
+
+def _combine_lifted_call(lifted):
+    """_combine_surrogates as the lifted strippers see it: the module's own source on symbolic strings"""
+    def call(text):
+        out = lifted(_RtfText(_codes(text)))
+        return out if isinstance(out, S.CharStr) else S.CharStr(out)
+    return call
+
+
+def _combine_lift_selftest(real, call):
+    """translator validation: the lifted function on concrete strings returns what the real one returns
+    (whatever the function currently does - this compares two executions of the same source)"""
+    n = 0
+    for sub in _surr_lattice(3):
+        a, b = real(sub), call(S.CharStr(sub)).concrete()
+        if a != b:
+            raise AssertionError(f"lifted _combine_surrogates differs on {sub!r}: {a!r} vs {b!r}")
+        n += 1
     return n
 
 
@@ -778,7 +836,12 @@ def _rtf_lift_once(m):
     for g in regex_globals:
         ns[g] = SymRegex(getattr(m, g))
     if hasattr(m, "_combine_surrogates"):
-        _combine_selftest(m._combine_surrogates)
+        # the repair step is the module's own source too (lifted); only the standard library's UTF-16
+        # codec underneath it is modelled, and that model is validated against the codec - so a change
+        # of _combine_surrogates is followed and judged by the oracle, not by a self-test
+        _utf16_model_selftest()
+        L["combine_lifted"] = _combine_lifted_call(lift.lift(m._combine_surrogates))
+        _combine_lift_selftest(m._combine_surrogates, L["combine_lifted"])
         L["combine"] = _Late()
         ns["_combine_surrogates"] = L["combine"]
     for name in _rtf_lifted_names(m):
@@ -811,8 +874,9 @@ def _rtf_lifted_parser(ctx, chr_model):
     L["chr"].target = chr_model
     if L.get("combine"):
         # twin: without the repair step the query must find the surrogate again
-        L["combine"].target = (lambda t: t) if ctx.perturb == "without_combine_surrogates" else _combine_surrogates_model
-        ctx.shadows_used.add("rtf_extractor._combine_surrogates -> code-walking model (validated against the real function)")
+        L["combine"].target = (lambda t: t) if ctx.perturb == "without_combine_surrogates" else L["combine_lifted"]
+        ctx.shadows_used.add("str.encode('utf-16','surrogatepass').decode('utf-16','replace') inside the lifted "
+                             "_combine_surrogates -> code-walking model of the codec round trip (validated against the codec)")
     ctx.shadows_used.add("rtf_extractor.bytes -> bytes([symbolic byte]).decode(codec) as the codec's own 256-entry "
                          "table (read off the codec at run time)")
     p = object.__new__(m._RtfParser)
@@ -916,6 +980,19 @@ def _k3_parts(tier):
                 parts.append({"site": site, "len": 5, "prefix": "\\u", "alphabet": "num", "suffix": mid + "\\u56832"})
             if not q and site == "full":
                 parts.append({"site": site, "len": 6, "prefix": "\\u", "alphabet": "num", "suffix": mid, "len2": 6})
+        # the escape in context: ordinary text in front of it (the repaired text does not start with the
+        # escape's character) and behind it
+        for suffix in ("", "?y"):
+            parts.append({"site": site, "len": 5 if q else 6, "prefix": "x\\u", "alphabet": "num", "suffix": suffix})
+        if site == "full":
+            # the two halves of a pair on either side of a page break (each page is repaired on its own,
+            # the whole text once more): one half fixed / both chosen by the solver
+            if q:
+                parts.append({"site": site, "len": 5, "prefix": "\\u55357\\page \\u", "alphabet": "num", "suffix": ""})
+                parts.append({"site": site, "len": 5, "prefix": "\\u", "alphabet": "num", "suffix": "\\page \\u56832"})
+            else:
+                parts.append({"site": site, "len": 5, "prefix": "\\u", "alphabet": "num", "suffix": "\\page ", "len2": 5})
+                parts.append({"site": site, "len": 5, "prefix": "y\\u", "alphabet": "num", "suffix": "\\page z", "len2": 5})
         # \\u / \\' / nothing + free characters of the RTF alphabet
         tops = {("full", True): (4, 4, 4), ("simple", True): (3, 3, 4),
                 ("full", False): (5, 5, 5), ("simple", False): (4, 5, 5)}[(site, q)]
@@ -2348,7 +2425,8 @@ def _k3_targets():
     m = _rtf()
     return [m._RtfParser._strip_rtf_full_with_pages, m._RtfParser._strip_rtf_simple,
             m._RtfParser._remove_ignorable_groups, m._RtfParser._is_skip_destination] + \
-        [getattr(m._RtfParser, n) for n in ("_decode_hex_escape",) if hasattr(m._RtfParser, n)]
+        [getattr(m._RtfParser, n) for n in ("_decode_hex_escape",) if hasattr(m._RtfParser, n)] + \
+        [getattr(m, n) for n in ("_combine_surrogates",) if hasattr(m, n)]
 
 
 KERNELS = [
@@ -2413,9 +2491,10 @@ KERNELS = [
                   "int -> symrun.IntShadow, chr -> range-checked chr on symbolic ints",
                   "bytes([b]).decode(codec) on a symbolic byte (_decode_hex_escape) -> the codec's own 256-entry "
                   "table read off the codec at run time; lifted decoder compared with the real one on all bytes",
-                  "_combine_surrogates (UTF-16 codec round trip) -> code-walking model on symbolic strings, compared "
-                  "with the real function on all strings of <= 4 items over a surrogate / BOM / astral alphabet in "
-                  "every run; concrete replay uses the real function through read_rtf"],
+                  "_combine_surrogates is the module's own source lifted to symbolic strings; only the standard "
+                  "library's UTF-16 surrogatepass/replace round trip inside it -> code-walking model, compared with "
+                  "the codec itself on all strings of <= 4 items over a surrogate / BOM / astral alphabet in every "
+                  "run (lifted vs real function: <= 3 items); concrete replay uses the real function, also through read_rtf"],
            assumptions=["input characters are no surrogates (they come out of bytes.decode)",
                         "_strip_rtf_full_with_pages / _strip_rtf_simple / _remove_ignorable_groups / "
                         "_is_skip_destination / _decode_hex_escape are the module's own source lifted to symbolic "
